@@ -968,6 +968,7 @@ def make_iter(eng, v):
                                                                       sq.at(s, pos(x)) == x))))
         eng.assume(z3.ForAll([i], z3.Implies(z3.And(0 <= i, i < sq.len(s)),
                                               z3.And(z3.Select(e, sq.at(s, i)), pos(sq.at(s, i)) == i))))
+        eng.assume(sq.len(s) == eng.uf('card_' + ty.name, [ty], TInt)(e))       # as many elements as len(set)
         it = IterV(sq.len(s), lambda i: wrap(ty.t, sq.at(s, _int(i))))
         it.src = v
         it.pos, it.pos_ty = pos, ty.t
@@ -1061,7 +1062,11 @@ def b_len(eng, x):
     if ty == TStr:
         return eng.numval(z3.Length(e))
     if isinstance(ty, TSet):
-        raise EngineError('len of a symbolic set')
+        # the cardinality of a set: an uninterpreted function of the set, tied to the length of its enumerations (make_iter)
+        c = eng.uf('card_' + ty.name, [ty], TInt)(e)
+        eng.assume(c >= 0)
+        eng.assume((c == 0) == (e == ty.empty()))
+        return eng.numval(c)
     raise EngineError('len of %r' % (x,))
 
 
@@ -1927,6 +1932,8 @@ def comprehension(eng, node, env, kind):
         if kind == 'set':
             return new_set(eng, out)
         return new_dict(eng, out)
+    if g.ifs and kind == 'dict':
+        return dict_from_pairs(eng, it, g, env, elem)      # {k(x): v(x) for x in S if p(x)}: the filter is part of the facts
     if g.ifs:
         if kind not in ('gen', 'list', 'set'):
             raise EngineError('filtered %s comprehension over a symbolic sequence' % kind)
@@ -1979,15 +1986,26 @@ def _may_raise(expr):
 
 
 def dict_from_pairs(eng, it, g, env, elem):
-    """{k(x): v(x) for x in S} over a symbolic S: a fresh map of which only true facts are stated (an under-specification:
-    the insertion order is not described): every key(i) is present; a key maps to the value of its last occurrence; every
-    key of the map comes from some element (Skolem witness)."""
+    """{k(x): v(x) for x in S [if p(x)]} over a symbolic S: a fresh map of which only true facts are stated (an
+    under-specification: the insertion order is not described): every key(i) [with p] is present; a key maps to the value of
+    its last occurrence; every key of the map comes from some element [with p] (Skolem witness)."""
     def kv(i):
         sub = Env(env, {})
         eng.assign(g.target, it.get(i), sub)
         eng.spec += 1
         try:
             return elem(sub)
+        finally:
+            eng.spec -= 1
+    def cond(i):
+        # the filter of the comprehension at position i (a pure expression of the element); True without one
+        if not g.ifs:
+            return z3.BoolVal(True)
+        sub = Env(env, {})
+        eng.assign(g.target, it.get(i), sub)
+        eng.spec += 1
+        try:
+            return eng._b(eng.And(*[eng.truth(eng.eval(c, sub)) for c in g.ifs]))
         finally:
             eng.spec -= 1
     pk, pv = kv(z3.Int('probe!'))
@@ -2003,12 +2021,13 @@ def dict_from_pairs(eng, it, g, env, elem):
     ki, vi = kv(i)
     kj, _ = kv(j)
     ke, ve = to_z3(ki, kt), to_z3(vi, vt)
-    eng.assume(z3.ForAll([i], z3.Implies(z3.And(0 <= i, i < n), mt.has(m, ke))))
-    eng.assume(z3.ForAll([i], z3.Implies(z3.And(0 <= i, i < n, z3.ForAll([j], z3.Implies(z3.And(i < j, j < n), to_z3(kj, kt) != ke))),
+    eng.assume(z3.ForAll([i], z3.Implies(z3.And(0 <= i, i < n, cond(i)), mt.has(m, ke))))
+    eng.assume(z3.ForAll([i], z3.Implies(z3.And(0 <= i, i < n, cond(i),
+                                                z3.ForAll([j], z3.Implies(z3.And(i < j, j < n, cond(j)), to_z3(kj, kt) != ke))),
                                          mt.at(m, ke) == ve)))
     kk = z3.FreshConst(kt.sort(), 'dk')
     kw, _ = kv(w(kk))
-    eng.assume(z3.ForAll([kk], z3.Implies(mt.has(m, kk), z3.And(0 <= w(kk), w(kk) < n, to_z3(kw, kt) == kk))))
+    eng.assume(z3.ForAll([kk], z3.Implies(mt.has(m, kk), z3.And(0 <= w(kk), w(kk) < n, cond(w(kk)), to_z3(kw, kt) == kk))))
     eng.assume(mt.n(m) <= z3.If(n > 0, n, 0))
     return Box(mt, m)
 
